@@ -61,7 +61,6 @@ var (
 	keyDB     txscript.KeyDB
 	scriptDB  txscript.ScriptDB
 	spendKinds []*spendKind
-	sigCache  *txscript.SigCache
 )
 
 func dstr(d [32]byte, err error) string {
@@ -177,7 +176,6 @@ func mkTapTree(internal *btcec.PublicKey, scripts ...[]byte) *tapTree {
 }
 
 func initSpendKinds() {
-	sigCache = txscript.NewSigCache(1 << 20)
 	type kv struct {
 		k *btcec.PrivateKey
 		c bool
@@ -492,7 +490,7 @@ var engineRuns int64
 // SigCache and, for non-taproot inputs, without a precomputed midstate; all
 // verdicts must agree.  It returns the verdict and a non-empty complaint when
 // the variants disagree or the engine panicked.
-func runEngine(c *spendCtx, taproot bool, flags txscript.ScriptFlags) (verdict, string) {
+func runEngine(c *spendCtx, taproot bool, flags txscript.ScriptFlags, sigCache *txscript.SigCache) (verdict, string) {
 	v1 := runEngineOnce(c, flags, nil, true)
 	v2 := runEngineOnce(c, flags, sigCache, true)
 	v2b := runEngineOnce(c, flags, sigCache, true)
@@ -661,8 +659,11 @@ func evalSignCase(sc SignCase) string {
 		return "signing helper failed: " + res.signErr.Error()
 	}
 	base := res.ctx
+	// one SigCache per signed spend: cold for the first execution of the
+	// signed transaction, warm for the second one and for every mutation.
+	cache := txscript.NewSigCache(1000)
+	v, complaint := runEngine(base, k.taproot, k.vflags(), cache)
 	if sc.Mutation == "" {
-		v, complaint := runEngine(base, k.taproot, k.vflags())
 		if complaint != "" {
 			return complaint
 		}
@@ -681,7 +682,7 @@ func evalSignCase(sc SignCase) string {
 		}
 		mrefs := k.ref(mc, sc.HashType)
 		committed := !reflect.DeepEqual(mrefs, res.refs)
-		v, complaint := runEngine(mc, k.taproot, k.vflags())
+		v, complaint := runEngine(mc, k.taproot, k.vflags(), cache)
 		if complaint != "" {
 			return "after mutating " + m.name + ": " + complaint
 		}
@@ -744,11 +745,21 @@ func runSigners(r *ev.Run) {
 				r.Sample(sc)
 			}
 			// signed tx itself
-			if w := evalSignCase(sc); w != "" {
+			res := signBase(it.k, it.s.nIn, it.s.nOut, it.idx, it.other, ht)
+			cache := txscript.NewSigCache(1000)
+			bad := res.signPan != "" || (res.signErr != nil) != res.refErr
+			if !bad && !res.refErr {
+				v, complaint := runEngine(res.ctx, it.k.taproot, it.k.vflags(), cache)
+				bad = complaint != "" || !v.ok
+			}
+			if bad {
+				w := evalSignCase(sc)
+				if w == "" {
+					r.Broken("signer verdict of %s not reproducible", sc.key())
+				}
 				report(r, "sign", sc.key(), w, sc, func() string { return evalSignCase(sc) })
 				continue
 			}
-			res := signBase(it.k, it.s.nIn, it.s.nOut, it.idx, it.other, ht)
 			if res.refErr {
 				atomic.AddInt64(&nSignErrExpected, 1)
 				continue
@@ -772,7 +783,7 @@ func runSigners(r *ev.Run) {
 				} else {
 					atomic.AddInt64(&nUncommitted, 1)
 				}
-				v, complaint := runEngine(mc, it.k.taproot, it.k.vflags())
+				v, complaint := runEngine(mc, it.k.taproot, it.k.vflags(), cache)
 				if complaint != "" || committed == v.ok {
 					w := evalSignCase(msc)
 					if w == "" {
